@@ -1,4 +1,4 @@
-from ...utils.bitfun import wrap_negative, BitView
+from ...utils.bitfun import wrap_signed, BitView
 from ..encoding import Relocation
 from .tokens import RiscvToken, RiscvIToken, RiscvSBToken
 
@@ -12,7 +12,7 @@ class BImm12Relocation(Relocation):
         assert sym_value % 2 == 0
         assert reloc_value % 2 == 0
         offset = (sym_value - reloc_value) // 2
-        return wrap_negative(offset, 12)
+        return wrap_signed(offset, 12)
 
     def apply(self, sym_value, data, reloc_value):
         """Apply this relocation type given some parameters.
@@ -35,7 +35,7 @@ class BImm20Relocation(Relocation):
         assert sym_value % 2 == 0
         assert reloc_value % 2 == 0
         offset = sym_value - reloc_value
-        rel20 = wrap_negative(offset >> 1, 20)
+        rel20 = wrap_signed(offset >> 1, 20)
         bv = BitView(data, 0, 4)
         bv[21:31] = rel20 & 0x3FF
         bv[20:21] = rel20 >> 10 & 0x1
